@@ -24,6 +24,7 @@ Proof.
   destruct (enc o t) as [out|e]; [|cbn; auto].
   cbn. exists out. auto.
 Qed.
+Print Assumptions conv_run_contract_bin.
 
 Theorem C02_result_contract :
   forall (tree opts : Type) (tree_from_xml : opts -> list N -> tree + N) (encode : opts -> tree -> list N + N)
